@@ -408,6 +408,9 @@ func newSession(id int, tp *template) *session {
 			s.ops = append(s.ops, o)
 		}
 	}
+	// at the very end the handshake result is rendered again: it must not have
+	// changed while the other sessions used the pooled handshake buffers
+	s.ops = append(s.ops, op{name: "hs-recheck", fam: "hs-recheck"})
 	return s
 }
 
@@ -1162,6 +1165,8 @@ func (s *session) step() {
 		s.stepBrRead()
 	case "br-put":
 		s.stepBrPut()
+	case "hs-recheck":
+		s.logf("err=%s hs={%s}", renderErr(s.hsErr), renderHS(s.hs))
 	default:
 		if s.hsErr != nil {
 			s.logf("skipped (handshake failed)")
